@@ -127,6 +127,18 @@ def json_term(j, tb: Tables | None = None) -> str:
     return f"(JOther {cstr(type(j).__name__)})"
 
 
+def collect_marker_strs(j, tb: Tables):
+    """Strings sitting under a binary marker key: the decoder oracle is consulted for them."""
+    if isinstance(j, dict):
+        for k, v in j.items():
+            if k in ("_bytes", "_bytesio") and isinstance(v, str):
+                tb.strs[v] = None
+            collect_marker_strs(v, tb)
+    elif isinstance(j, list):
+        for v in j:
+            collect_marker_strs(v, tb)
+
+
 def ty_term(h, unknown: list | None = None) -> str:
     """typing.get_type_hints value -> Coq `ty` (what the deserialiser can observe of it)."""
     if h is typing.Any:
@@ -822,6 +834,7 @@ def run(ctx):
         y, err, stage = roundtrip_impl(x)
         restored.append((y, err, stage))
         rt = "None" if y is None else "(Some " + val_term(y) + ")"
+        collect_marker_strs(jt, tb)
         pipe_cases.append(f"({vt}, {tb.enc_table()}, {tb.dec_table()}, {rt})")
         hyp_cases.append(vt)
         nontriv = bool(payloads(x)) or any(dataclasses.is_dataclass(getattr(x, f.name)) or
@@ -853,6 +866,10 @@ def run(ctx):
         ctx.obligation("evaluation of the theorem hypotheses on the instances", okh, logh[:800])
         nohyp = set(nh)
         ctx.count("instances-satisfying-roundtrip-hypotheses", len(insts) - len(nohyp))
+        if fs:
+            ctx.extra["ser_disagreements"] = [ser_cases[i][:4000] for i in fs[:4]]
+        if fp:
+            ctx.extra["pipe_disagreements"] = [pipe_cases[i][:6000] for i in fp[:4]]
 
         # property oracle on the implementation
         marker_hits = 0
@@ -1029,14 +1046,22 @@ def run(ctx):
         cli_cases = []
         for label, p in cli_docs:
             try:
-                rs = list(sharepoint2text.read_file(str(p)))
+                base = list(sharepoint2text.read_file(str(p)))
             except Exception:  # noqa
                 continue
             for flag in ("--json", "--json-unit"):
                 for binary in (False, True):
-                    rs = list(sharepoint2text.read_file(str(p)))   # fresh: iterate_units may mutate a result (C06)
+                    # The CLI is run on exactly these results (read_file patched to replay them): extraction need not
+                    # be deterministic (C06: timestamps of "now", iterate_units mutating a result) and C05 only
+                    # speaks about the shaping/encoding of given results.
                     argv = [str(p), flag] + (["--binary"] if binary else [])
-                    rc, out, err = run_cli(argv)
+                    orig_read = sharepoint2text.read_file
+                    sharepoint2text.read_file = lambda *a, _b=base, **k: iter(copy.deepcopy(_b))
+                    try:
+                        rc, out, err = run_cli(argv)
+                    finally:
+                        sharepoint2text.read_file = orig_read
+                    rs = copy.deepcopy(base)
                     ctx.case(("cli", label, flag, binary), True, kind=f"cli:{flag}{'+binary' if binary else ''}:"
                              f"{'one' if len(rs) == 1 else 'several'}")
                     if flag == "--json":
